@@ -10,6 +10,11 @@ from framework.registry import target, job, PROPS, COMMON_ASSUME
 #    and its nonzeros() is documented as an estimate, so it is not compared.  Eigen / uBLAS containers keep
 #    their rows sorted, so they are compared with sorted sources only (Eigen::Map over user arrays also
 #    with unsorted ones).
+#  * compositions (seeded C17-5): block_matrix<2,3,4> over crs_builder, tuples with every index type, iterator ranges, zero_copy,
+#    zero_copy_direct, shared crs, Eigen Map / compressed / uncompressed, uBLAS; reorder<> over crs_builder, zero_copy, Eigen;
+#    scale_diagonal over Eigen (over crs_builder / crs it does not compile: scaled_matrix::row_iterator needs a Base(A, i)
+#    constructor).  Every adapter additionally gets the two-iterators probe: two row iterators of the same adapted matrix
+#    alive at once, advanced alternately, must both reproduce their source rows (exact comparison).
 #  * reorder / scale: the mapped-back solution is checked against the ORIGINAL system with the C01 oracle
 #    for solvers that recompute the residual on exit (FGMRES): |res - true| <= max(1e-6 true,
 #    8 u (maxrow+3)(|| |A||x| || + ||f||)/||f||).  For scale_diagonal the solver works in the scaled norm, so
@@ -38,10 +43,10 @@ def c17_jobs(tier):
 
 PROPS['C17'] = dict(
     level='exploration', jobs=c17_jobs,
-    rule='adapters: seeded square matrices (1..300 rows, sorted and unsorted rows, integer- or real-valued) presented through tuples of std::vector / iterator ranges with index types int, long, unsigned, size_t, ptrdiff_t (and mixed), crs, shared_ptr<crs>, crs_builder, Eigen::SparseMatrix (compressed and uncompressed), Eigen::Map (int / ptrdiff_t), uBLAS compressed_matrix; block_adapter: block_matrix<2,3,4> over tuple and crs + unblock; zerocopy: zero_copy / zero_copy_direct with signed and unsigned 64-bit and 32-bit indices on rectangular matrices, every 4th case builds an AMG hierarchy and an FGMRES solver on the user memory; reorder / scale: operator identities on random matrices, every 3rd case a solve on a G1 / G2 / G3 matrix (60..800 unknowns, thorough ..3000); roworder_exhaustive: see exhaustive_subspaces; roworder_*: G1/G2/G3/random diagonally dominant matrices (20..750 unknowns) and reservoir-like block systems, rows shuffled randomly or reversed, for as_preconditioner<9 relaxations>, amg<4 coarsenings x 9 relaxations (runtime wrappers)>, cpr, cpr_drs, schur_pressure_correction (types 1,2), make_solver. Non-trivial: the matrix stores entries (adapters) / the hierarchy has >= 2 levels (roworder_amg) / every class compared (roworder_relax: 9, roworder_coupled: 5 per case).',
+    rule='adapters: seeded square matrices (1..300 rows, sorted and unsorted rows, integer- or real-valued) presented through tuples of std::vector / iterator ranges with index types int, long, unsigned, size_t, ptrdiff_t (and mixed), crs, shared_ptr<crs>, crs_builder, Eigen::SparseMatrix (compressed and uncompressed), Eigen::Map (int / ptrdiff_t), uBLAS compressed_matrix; block_adapter: block_matrix<2,3,4> over tuple, crs and every other scalar adapter (compositions) + unblock; every adapter with two row iterators alive at once; zerocopy: zero_copy / zero_copy_direct with signed and unsigned 64-bit and 32-bit indices on rectangular matrices, every 4th case builds an AMG hierarchy and an FGMRES solver on the user memory; reorder / scale: operator identities on random matrices, every 3rd case a solve on a G1 / G2 / G3 matrix (60..800 unknowns, thorough ..3000); roworder_exhaustive: see exhaustive_subspaces; roworder_*: G1/G2/G3/random diagonally dominant matrices (20..750 unknowns) and reservoir-like block systems, rows shuffled randomly or reversed, for as_preconditioner<9 relaxations>, amg<4 coarsenings x 9 relaxations (runtime wrappers)>, cpr, cpr_drs, schur_pressure_correction (types 1,2), make_solver. Non-trivial: the matrix stores entries (adapters) / the hierarchy has >= 2 levels (roworder_amg) / every class compared (roworder_relax: 9, roworder_coupled: 5 per case).',
     exhaustive_note='roworder_exhaustive: every order of the entries within each row of a 3x3 full matrix (216 orders), a 4x4 cyclic tridiagonal matrix (1296) and a 2-cell 2-phase block system (1296), for as_preconditioner<9 relaxations>, amg, cpr, cpr_drs, schur_pressure_correction (types 1, 2)',
     min_nontrivial=dict(quick=2500, thorough=15000),
-    require_obs=dict(quick=['zero_copy_cases', 'reorder_solves', 'scale_solves', 'actions_compared', 'permutations_enumerated'], thorough=['zero_copy_cases', 'reorder_solves', 'scale_solves', 'actions_compared', 'permutations_enumerated']),
+    require_obs=dict(quick=['zero_copy_cases', 'adapter_compositions', 'two_iterator_probes', 'reorder_solves', 'scale_solves', 'actions_compared', 'permutations_enumerated'], thorough=['zero_copy_cases', 'adapter_compositions', 'two_iterator_probes', 'reorder_solves', 'scale_solves', 'actions_compared', 'permutations_enumerated']),
     assumptions=COMMON_ASSUME,
     technique='reference-model oracle (source arrays, long-double SpMV, P A P^T and D^-1/2 A D^-1/2 formulas, truthful-residual oracle on the original system) + differential oracle sorted vs shuffled rows on the extracted preconditioner action + pointer-identity / ownership monitor for zero-copy under ASan+LSan',
     level_text='Every adapter named by the property presents seeded matrices to the library; sizes, complete row iteration, CRS conversion and SpMV are compared with the source, zero-copy variants are checked for pointer identity, ownership and untouched user memory under AddressSanitizer, reorder<> and scale_diagonal are checked entry-wise against their formulas and by solving and mapping the solution back to the original system, and every preconditioner class that accepts a user matrix is built from sorted and from row-shuffled input and compared through its extracted action. Held means: no observed execution deviated; it is not a proof for unobserved inputs.',
